@@ -132,7 +132,7 @@ def run_msm(spec, res):
 
                 def cex2(name, model, text, opt=opt, hist=hist):
                     if model is None and eng.check3() == 'sat':
-                        model = eng.solver.model()
+                        model = eng.model()
                     if model is not None:
                         pl = d.payload_from_model(model).hex()
                         res['cex'].append({'kind': 'construct', 'payload': pl, 'labelmsm': opt, 'history': [pl] * len(hist), 'history_opts': hist,
@@ -169,13 +169,13 @@ def run_msm(spec, res):
             msgdrv.discharge(eng, claims, res, cex)
         res.count('paths_checked')
         if len(res['witnesses']) < 1 and eng.check3() == 'sat':
-            res['witnesses'].append({'kind': 'labelopt', 'payload': d.payload_from_model(eng.solver.model()).hex(), 'options': [2, 1, 2, True, 0, 7]})
+            res['witnesses'].append({'kind': 'labelopt', 'payload': d.payload_from_model(eng.model()).hex(), 'options': [2, 1, 2, True, 0, 7]})
     res.absorb_engine(eng)
 
 
 def emit(eng, d, res, why, opt, model=None, v=None, checks=None):
     if model is None and eng.check3() == 'sat':
-        model = eng.solver.model()
+        model = eng.model()
     if model is None:
         res['harness_errors'].append("no model for " + why)
         return
@@ -275,7 +275,7 @@ def run_reader(spec, res):
                         pref = ta[0] != tb_[0]
                         break
             if (pref is not None and eng.check3(pref) == 'sat') or eng.check3() == 'sat':
-                m = eng.solver.model()
+                m = eng.model()
                 res['cex'].append({'kind': 'labelopt', 'payload': d.payload_from_model(m).hex(), 'options': [opt], 'via_reader': True, 'validate': validate,
                                    'why': "reader does not pass the label option through: " + "; ".join(bad[:3]), 'dedup': f"reader:{ident}:{opt}"})
         else:
